@@ -22,6 +22,7 @@ class C11(PoolScenario):
     wall_caps = {"quick": 110, "thorough": 1500}
     ops = {"new": 1, "fill": 8, "fillnumpy": 2, "add": 2, "ship": 1, "clone": 4, "pair": 10}
     wires = ["json", "jsonstr"]
+    regimes = ["dyadic", "dyadic", "awkward"]  # awkward: non-dyadic edges, values on and next to them (clone and original must still agree exactly)
     spec_opts = {"qkinds": QKINDS}
     rule = ("one run = a history in which aggregators (fresh, filled, merged, reloaded from JSON) are cloned with "
             "pickle.loads(pickle.dumps(h)) at seeded points and clone and original then get identical row fills, "
